@@ -48,6 +48,7 @@ fn main() {
             let prefix = &args[7];
             let thorough = tier == "thorough";
             let oracle_every = match stream {
+                "twide" => 53,
                 "trand" if thorough => 7,
                 _ => 1,
             };
@@ -91,7 +92,12 @@ fn main() {
                         vsmall(&mut g, 4, 3, shard, nshards);
                     }
                 }
+                "ssmall" => {
+                    exhaustive = true;
+                    ssmall(&mut g, if thorough { 4 } else { 3 }, shard, nshards);
+                }
                 "srand" => srand(&mut g, &mut r, if thorough { 3000 } else { 150 }, if thorough { 120 } else { 30 }),
+                "twide" => twide(&mut g, &mut r, if thorough { 12 } else { 2 }, if thorough { 900 } else { 420 }),
                 "tmid" => tmid(&mut g, &mut r, if thorough { 40000 } else { 2500 }),
                 "dsmall" => {
                     exhaustive = true;
@@ -173,6 +179,22 @@ fn main() {
             for f in &e.fails {
                 eprintln!("ORACLE\t{}\t{}\t{}", f.prop, f.line_no, f.msg);
             }
+        }
+        Some("fixture") => {
+            // the repository's own compatibility fixture (tree.rs test_hash_fixture): 1000 IntKeys,
+            // key bytes = big-endian u64, digests = SipHash-2-4-128(0,0) of write_u64(i)
+            use siphasher::sip128::{Hasher128, SipHasher24};
+            use std::hash::Hasher as _;
+            println!("# tree::tests::test_hash_fixture of the repository, as a protocol script");
+            println!("# expect-last: 394dc74259d9cfa688b52d506c505e03");
+            println!("new 0 16 n=16");
+            for i in 0u64..1000 {
+                let mut h = SipHasher24::default();
+                h.write_u64(i);
+                let d = h.finish128().as_bytes();
+                println!("ups 0 {} {} {}", util::xtok(&i.to_be_bytes()), util::xtok(&d), util::xtok(&d));
+            }
+            println!("hash 0");
         }
         Some("stack") => {
             let depth: usize = args[2].parse().unwrap();
